@@ -156,6 +156,26 @@ def basic_prepared(g):
     return g['tag'] in ('P', 'MP', 'GC')
 
 
+def env_of(g):
+    xs = [dbl(p[0]) for x in walk(g) for sq in x.get('seqs', []) for p in sq]
+    ys = [dbl(p[1]) for x in walk(g) for sq in x.get('seqs', []) for p in sq]
+    return (min(xs), max(xs), min(ys), max(ys)) if xs else None
+
+
+def geos_env_distance(e, f):
+    """Envelope::distanceSquared as written in include/geos/geom/Envelope.h (branch-free form), in doubles"""
+    dx = max(0.0, max(e[1], f[1]) - min(e[0], f[0]) - (e[1] - e[0]) - (f[1] - f[0]))
+    dy = max(0.0, max(e[3], f[3]) - min(e[2], f[2]) - (e[3] - e[2]) - (f[3] - f[2]))
+    return (dx * dx + dy * dy) ** 0.5
+
+
+def gap_env_distance(e, f):
+    """the same quantity from the two gaps (each a single rounding of a non-negative difference)"""
+    dx = f[0] - e[1] if e[1] < f[0] else (e[0] - f[1] if f[1] < e[0] else 0.0)
+    dy = f[2] - e[3] if e[3] < f[2] else (e[2] - f[3] if f[3] < e[2] else 0.0)
+    return (dx * dx + dy * dy) ** 0.5
+
+
 # ----------------------------------------------------------------------------- classification of a failing case
 def classify(case, clauses):
     """map every violated clause of one case to a class name (a mechanism already understood) or 'other'"""
@@ -188,7 +208,10 @@ def classify(case, clauses):
         elif c.startswith('within') and c.endswith('-false-but-distance<=threshold') and d is not None:
             key = {'within': 'w', 'within-prepared-a': 'wa', 'within-prepared-b': 'wb'}.get(c.rsplit('-false-but', 1)[0])
             bad = [v[0] for k, v in res if k == key and v[1] != '1' and dbl(v[0]) >= d]
-            if bad and all(t == r1['d'][0] for t in bad):
+            ea, eb = env_of(a), env_of(b)
+            if bad and ea and eb and all(geos_env_distance(ea, eb) > dbl(t) >= gap_env_distance(ea, eb) for t in bad):
+                cls = 'envelope-distance-rounding'
+            elif bad and all(t == r1['d'][0] for t in bad):
                 cls = 'within-exactly-at-distance-rounding'
         out[c] = cls
     return out
@@ -204,6 +227,9 @@ WHAT = {
                                                    "boundary points at positive distance although the distance is 0",
     'basic-prepared-distance-rounding': "GEOSPreparedDistance on a point/multipoint/collection (BasicPreparedGeometry) measures the distance "
                                         "between computed nearest points and is off by more than 1e-12 relative for translated coordinates",
+    'envelope-distance-rounding': "Envelope::distance (branch-free formula max(..)-min(..)-width-width) rounds to a positive value for envelopes that touch or "
+                                  "overlap, so GEOSDistanceWithin / GEOSPreparedDistanceWithin answer false at a threshold >= the true distance "
+                                  "(e.g. threshold 0 for lines sharing a vertex); the bound is also used for pruning",
     'within-exactly-at-distance-rounding': "GEOSPreparedDistanceWithin false at a threshold exactly equal to the true (and reported) distance: "
                                            "the envelope heuristic of IndexedFacetDistance::isWithinDistance computes a distance one ulp too large",
 }
@@ -318,22 +344,25 @@ def run(ctx):
                       {"kind": "tie-broken", "correspondence": "harness/c08.cpp", "log": out[-3000:]}, nofail=True)
         return
     quick = ctx.tier == "quick"
-    n = 4000 if quick else 120000
     shards = min(verif.NPROC, 8)
-    r = verif.run_stream(exe, "distance", ctx.seed, n, ctx.work, shards=shards, driver_exe=DRV)
     found_input = False
-    corr = {"cases": r["cases"], "disagreements": len(r["disagreements"]) + r.get("more_disagreements", 0),
-            "distribution": r["stats"]}
-    ctx.cov["samples"] += [{"case": s["case"][:300], "impl": s["impl"], "model": s["model"]} for s in r.get("samples", [])[:2]]
-    if r["error"]:
-        ctx.violation("correspondence stream distance could not run: %s" % r["error"],
-                      {"kind": "tie-broken", "correspondence": "distance", "detail": r["error"]}, nofail=True)
-    else:
+    allcorr = {}
+    by_class = {}
+    counts = {}
+    for stream, n in (("distance", 3200 if quick else 100000), ("distance-fp", 1600 if quick else 40000)):
+        r = verif.run_stream(exe, stream, ctx.seed, n, ctx.work, shards=shards, driver_exe=DRV)
+        corr = {"cases": r["cases"], "disagreements": len(r["disagreements"]) + r.get("more_disagreements", 0),
+                "distribution": r["stats"]}
+        allcorr[stream] = corr
+        ctx.cov["samples"] += [{"case": x["case"][:300], "impl": x["impl"], "model": x["model"]} for x in r.get("samples", [])[:1]]
+        if r["error"]:
+            ctx.violation("correspondence stream %s could not run: %s" % (stream, r["error"]),
+                          {"kind": "tie-broken", "correspondence": stream, "detail": r["error"]}, nofail=True)
+            continue
         # full scan of the shard files (run_stream keeps only the first 50 disagreements)
-        by_class = {}
-        counts = {}
+        scounts = {}
         for k in range(shards):
-            base = os.path.join(ctx.work, "distance.%d" % k)
+            base = os.path.join(ctx.work, "%s.%d" % (stream, k))
             try:
                 cases = open(base + ".cases").read().split("\n")
                 got = open(base + ".got").read().split("\n")
@@ -351,39 +380,45 @@ def run(ctx):
                 for clause, cls in m.items():
                     # a case contributes to each understood class it shows, and to ONE 'other' key (its first unexplained clause)
                     key = cls if cls != 'other' else 'other:' + clause
-                    if cls == 'other' and any(k.startswith('other:') for k in keys):
+                    if cls == 'other' and any(k2.startswith('other:') for k2 in keys):
                         continue
                     if key not in keys:
                         keys.append(key)
                 for key in keys:
                     counts[key] = counts.get(key, 0) + 1
+                    scounts[key] = scounts.get(key, 0) + 1
                     if key not in by_class:
-                        by_class[key] = (c, g)
-        corr["failure_classes"] = counts
-        for key, (c, g) in sorted(by_class.items()):
-            cls = key.split(':')[0]
-            if cls == 'model':
-                ctx.violation("driver/model problem on a generated case (%s)" % g[:200],
-                              {"kind": "tie-broken", "correspondence": "distance", "case": c, "driver": g}, nofail=True)
+                        by_class[key] = (c, g, stream)
+        corr["failure_classes"] = scounts
+    others = 0
+    for key, (c, g, stream) in sorted(by_class.items()):
+        cls = key.split(':')[0]
+        if cls == 'model':
+            ctx.violation("driver/model problem on a generated case (%s)" % g[:200],
+                          {"kind": "tie-broken", "correspondence": stream, "case": c, "driver": g}, nofail=True)
+            continue
+        if cls == 'other':
+            others += 1
+            if others > 6:
                 continue
-            c2 = shrink(exe, ctx.work, c, cls) if cls != 'other' else shrink_other(exe, ctx.work, c, key.split(':', 1)[1])
-            c2full, ans2 = run_pair(exe, pair_of(c2), ctx.work)
-            if not c2full:
-                c2full, ans2 = c, g
-            found_input = True
-            if cls == 'other':
-                clause = key.split(':', 1)[1]
-                a, b, _ = parse_case(c2full)
-                sig = {"class": "other", "clause": clause}
-                what = "distance property violated: clause %s on %s / %s" % (clause, wkt(a)[:120], wkt(b)[:120])
-            else:
-                sig = {"class": cls}
-                what = WHAT[cls]
-            rep = {"kind": "failing-input", "stream": "distance", "case": c2full, "signature": sig, "count_in_run": counts[key],
-                   "replay_cmd": "bin/check C08 --replay <this file>"}
-            rep.update(describe(c2full, ans2))
-            ctx.violation(what, rep, signature=sig)
-    ctx.cov["support_correspondence"] = {"distance": corr}
+        c2 = shrink(exe, ctx.work, c, cls) if cls != 'other' else shrink_other(exe, ctx.work, c, key.split(':', 1)[1])
+        c2full, ans2 = run_pair(exe, pair_of(c2), ctx.work)
+        if not c2full:
+            c2full, ans2 = c, g
+        found_input = True
+        if cls == 'other':
+            clause = key.split(':', 1)[1]
+            a, b, _ = parse_case(c2full)
+            sig = {"class": "other", "clause": clause}
+            what = "distance property violated: clause %s on %s / %s" % (clause, wkt(a)[:120], wkt(b)[:120])
+        else:
+            sig = {"class": cls}
+            what = WHAT[cls]
+        rep = {"kind": "failing-input", "stream": stream, "case": c2full, "signature": sig, "count_in_run": counts[key],
+               "replay_cmd": "bin/check C08 --replay <this file>"}
+        rep.update(describe(c2full, ans2))
+        ctx.violation(what, rep, signature=sig)
+    ctx.cov["support_correspondence"] = allcorr
     if not proved:
         lf = getattr(ctx, "lean_failure", None) or {}
         ctx.violation("Lean obligations for C08 no longer check" + (" (a failing input was also found)" if found_input else "") + ": " +
